@@ -306,6 +306,10 @@ def main(argv=None):
     os.makedirs(os.path.join(ROOT, "evidence"), exist_ok=True)
     json.dump(ev, open(os.path.join(ROOT, "evidence", f"{prop}.json"), "w"), indent=1, default=str)
 
+    if args.v:
+        slow = sorted(((results[i][2], obligations[i][1].clause, results[i][1]) for i in results), reverse=True)[:8]
+        for t, c, b in slow:
+            print(f"   slowest: {t:6.2f}s {b:8s} {c}")
     print(f"{prop} [{tier}]: {len(reports)} functions under contract, {n_obl} obligations, {n_dis} discharged ({backends}), solver {solver_time:.1f}s, wall {wall:.1f}s")
     for a, b in undecided:
         print(f"UNDECIDED obligation={a} reason={b}")
